@@ -127,8 +127,9 @@ static inline c20i c20_inactive(c20i n, c20r gam, const c20r *x, const c20r *g, 
 }
 
 /* ---- OCP ---- (nx states, nu inputs, nh outputs, nc constraints) */
+/* every second component has no upper bound (the multiplier projection treats infinite bounds specially) */
 static inline void c20o_box(c20i n, c20r tag, c20r *lb, c20r *ub) {
-    for (c20i i = 0; i < n; ++i) { lb[i] = -tag - (c20r)i; ub[i] = tag + 0.5 * (c20r)i; }
+    for (c20i i = 0; i < n; ++i) { lb[i] = -tag - (c20r)i; ub[i] = i % 2 ? (c20r)INFINITY : tag + 0.5 * (c20r)i; }
 }
 static inline void c20o_x_init(c20i nx, c20r *x) { for (c20i i = 0; i < nx; ++i) x[i] = 31.0 + (c20r)i; }
 static inline void c20o_f(c20i nx, c20i nu, c20i t, const c20r *x, const c20r *u, c20r *o) {
